@@ -15,6 +15,7 @@ import (
 
 // FuncReport summarises the verification-condition generation for one function.
 type FuncReport struct {
+	Aliases int // alias returns checked (closure families)
 	Func        string
 	Obligations []*Obligation
 	Error       string // unsupported construct / contract error: every obligation of the function is undischarged
@@ -127,6 +128,9 @@ func (x *Exec) VerifyFunc(fn *ssa.Function) (rep *FuncReport) {
 	for i, r := range res.Rets {
 		if r.st.PC.IsFalse() {
 			continue
+		}
+		if x.OnTopReturn != nil {
+			x.OnTopReturn(f, r)
 		}
 		x.sig = fmt.Sprintf("ret%d", i+1)
 		if r.kind == "recovered" {
